@@ -101,13 +101,13 @@ func c06CellOp(c *boc.Cell, o sx.V) (out sx.V) {
 		if err != nil {
 			return sx.A("err")
 		}
-		return sx.BigN(v)
+		return scribbleBig(sx.BigN(v), v)
 	case "rbigint":
 		v, err := c.ReadBigInt(a[0].I())
 		if err != nil {
 			return sx.A("err")
 		}
-		return sx.BigZ(v)
+		return scribbleBig(sx.BigZ(v), v)
 	case "rbytes":
 		v, err := c.ReadBytes(a[0].I())
 		return errOr(err, sx.Bytes(v))
@@ -119,7 +119,9 @@ func c06CellOp(c *boc.Cell, o sx.V) (out sx.V) {
 		if v.GetWriteCursor() != a[0].I() {
 			return harnessErr("rbits-len")
 		}
-		return sx.Bits(bitsOf(&v))
+		out := sx.Bits(bitsOf(&v))
+		scribbleBits(&v)
+		return out
 	case "runary":
 		v, err := c.ReadUnary()
 		return errOr(err, sx.N(uint64(v)))
@@ -188,7 +190,24 @@ func c06DOp(regs []*dreg, o sx.V) (out sx.V) {
 	case "topup":
 		v := ri.value()
 		b, err := v.GetTopUppedArray()
-		return errOr(err, sx.Bytes(b))
+		out := errOr(err, sx.Bytes(b)) // sx.Bytes copies
+		scribbleBytes(b)               // the returned array is the caller's
+		return out
+	case "hash":
+		// implementation-only oracle: a cell wrapped around the register hashes like a cell into
+		// which the same bits were written (the model answers 'ok)
+		v := ri.value()
+		h1, err1 := boc.NewCellWithBits(v).HashString()
+		fresh := boc.NewCell()
+		err2 := fresh.WriteBitString(bitStringFromBits(bitsOf(&v)))
+		h2, err3 := fresh.HashString()
+		if err1 != nil || err2 != nil || err3 != nil {
+			return sx.A("err")
+		}
+		if h1 != h2 {
+			return sx.L(sx.A("hash-differs"), sx.Str(h1), sx.Str(h2))
+		}
+		return ok
 	case "rrem":
 		set(1, ri.api().ReadRemainingBits())
 		return ok
@@ -315,6 +334,8 @@ type dscript struct {
 	want []string
 	g    [c06NRegs]ireg
 	tags map[string]bool
+	// no On() junk behind the ideal list: the raw buffer enters the hash of a cell wrapped around it
+	nojunk bool
 }
 
 func (d *dscript) add(o sx.V, want string) {
@@ -422,7 +443,7 @@ func (d *dscript) rawReg(i, j int) {
 func (d *dscript) grow(i, n int) {
 	d.g[i].cap += n
 	d.add(op("grow", sx.Nat(i), sx.Nat(n)), "'ok")
-	if d.r.Chance(60) {
+	if !d.nojunk && d.r.Chance(60) {
 		d.junk(i)
 	}
 }
@@ -504,6 +525,8 @@ func (d *dscript) observe(i int, which int) {
 		d.add(op("bin", sx.Nat(i)), sx.Bits(g.bits).String())
 	case 3:
 		d.add(op("topup", sx.Nat(i)), idealTopUp(g).String())
+	case 4:
+		d.add(op("hash", sx.Nat(i)), "'ok")
 	}
 }
 
@@ -846,8 +869,103 @@ func buildDerived(r *prng.R) *dscript {
 	return d
 }
 
+// Ownership: whatever a copy-like operation returns (Copy, ReadBits, ReadRemainingBits) is
+// independent of its source and of its siblings.  A source — EMPTY with spare capacity in
+// 45% — gets 2..3 derived strings; then source and derived strings are written in a random
+// order (every order of "copy first / source first / sibling first" occurs), each with its own
+// pattern, twice; after every write some other register is observed, at the end all of them:
+// state, Fift hex, topped-up bytes, hash of a cell wrapped around them, full read-back.
+func buildOwnership(r *prng.R) *dscript {
+	d := &dscript{r: r, tags: map[string]bool{}, nojunk: true}
+	L := 0
+	if r.Chance(55) {
+		L = 1 + r.Intn(40)
+	} else {
+		d.tags["empty"] = true
+	}
+	d.newReg(0, L+8+r.Intn(57))
+	d.writeChunks(0, biasedBits(r, L, 25))
+	if L > 0 && r.Chance(50) {
+		d.skip(0, r.Intn(L+1))
+	}
+	regs := []int{0}
+	nd := 2 + r.Intn(2)
+	for j := 1; j <= nd; j++ {
+		src := 0
+		if j > 1 && r.Chance(25) {
+			src = 1 + r.Intn(j-1) // a copy of a copy
+		}
+		avail := len(d.g[src].bits) - d.g[src].rcur
+		switch x := r.Intn(10); {
+		case x < 6:
+			d.copyReg(src, j)
+			d.tags["copy"] = true
+		case x < 8:
+			d.readBits(src, j, r.Intn(avail+1))
+			d.tags["rbits"] = true
+		default:
+			d.readRemaining(src, j)
+			d.tags["rrem"] = true
+		}
+		regs = append(regs, j)
+	}
+	for round := 0; round < 2; round++ {
+		order := append([]int{}, regs...)
+		for k := len(order) - 1; k > 0; k-- {
+			m := r.Intn(k + 1)
+			order[k], order[m] = order[m], order[k]
+		}
+		for _, i := range order {
+			if r.Chance(15) {
+				continue
+			}
+			w := 4 + r.Intn(20)
+			l := biasedBits(r, w, 30)
+			g := d.g[i]
+			switch {
+			case g.cap-len(g.bits) < w && r.Chance(85):
+				d.grow(i, w-(g.cap-len(g.bits))+r.Intn(4))
+				d.write(i, l)
+			case r.Chance(30):
+				d.newReg(5, w)
+				d.writeChunks(5, l)
+				d.appendReg(i, 5)
+			default:
+				d.write(i, l) // may not fit: Overflow, the prefix stays
+			}
+			other := regs[r.Intn(len(regs))]
+			d.observe(other, r.Intn(5))
+		}
+	}
+	for _, i := range regs {
+		for k := 0; k < 5; k++ {
+			d.observe(i, k)
+		}
+	}
+	for _, i := range regs {
+		d.readBack(i)
+	}
+	for _, i := range regs {
+		d.observe(i, 0) // reading one back (which scribbles over what ReadBits returned) changed no other
+	}
+	return d
+}
+
 func genC06Derived(c *Ctx) {
 	r := c.R
+	nOwn := c.Scale(500, 30000)
+	for i := 0; i < nOwn; i++ {
+		d := buildOwnership(r)
+		in := sx.L(d.ops...)
+		var tg []string
+		for _, k := range []string{"empty", "copy", "rbits", "rrem"} {
+			if d.tags[k] {
+				tg = append(tg, k)
+			}
+		}
+		out := c.Emit("c06.derived", in, "own|"+strings.Join(tg, "+"))
+		c06CheckScript(c, d, in, out, "own-")
+	}
 	n := c.Scale(1600, 120000)
 	for i := 0; i < n; i++ {
 		d := buildDerived(r)
@@ -859,21 +977,26 @@ func genC06Derived(c *Ctx) {
 			}
 		}
 		out := c.Emit("c06.derived", in, "derived|"+strings.Join(tg, "+"))
-		if out.K != sx.KL || len(out.List) != len(d.ops) {
-			c.Fail("c06.derived", in, "derived-shape", "result is not one value per operation")
+		c06CheckScript(c, d, in, out, "derived-")
+	}
+}
+
+// compare every predicted output of a script with the implementation's
+func c06CheckScript(c *Ctx, d *dscript, in sx.V, out sx.V, keyPrefix string) {
+	if out.K != sx.KL || len(out.List) != len(d.ops) {
+		c.Fail("c06.derived", in, keyPrefix+"shape", "result is not one value per operation")
+		return
+	}
+	for j, o := range out.List {
+		if d.want[j] == "" || o.String() == d.want[j] {
 			continue
 		}
-		for j, o := range out.List {
-			if d.want[j] == "" || o.String() == d.want[j] {
-				continue
-			}
-			head := d.ops[j].Head()
-			if head == "on" {
-				head = d.ops[j].List[2].Head()
-			}
-			c.Fail("c06.derived", in, "derived-"+head,
-				fmt.Sprintf("op %d %s returned %s, the ideal bit list gives %s", j, d.ops[j], trunc(o.String(), 120), trunc(d.want[j], 120)))
-			break
+		head := d.ops[j].Head()
+		if head == "on" {
+			head = d.ops[j].List[2].Head()
 		}
+		c.Fail("c06.derived", in, keyPrefix+head,
+			fmt.Sprintf("op %d %s returned %s, the ideal bit list gives %s", j, d.ops[j], trunc(o.String(), 120), trunc(d.want[j], 120)))
+		return
 	}
 }
